@@ -252,7 +252,9 @@ def Z(v):
             raise Unsupported('non-finite float literal')
         if v == int(v) and abs(v) < 1e18:
             return z3.RealVal(int(v))
-        return z3.RealVal(repr(v))
+        from fractions import Fraction
+        fr = Fraction(v)                      # the exact binary value of the literal
+        return z3.RealVal(f'{fr.numerator}/{fr.denominator}')
     return v
 
 
@@ -989,6 +991,10 @@ class Exec:
             return
         if isinstance(t, ast.Subscript):
             base = self.ev(t.value, st)
+            new = self.models.arr_setitem(self, st, st.deref(base), t.slice, v, t)
+            if new is not None:               # functional update of an array value, written back to where it came from
+                self.assign(t.value, new, st)
+                return
             self.models.store(self, st, base, t.slice, v, t, t.value)
             return
         raise Unsupported(f'assignment target {type(t).__name__} at line {t.lineno}')
